@@ -41,14 +41,38 @@ func (c *Codec) decodeRoot(jsonData []byte, root j5reflect.Root) error {
 	}
 }
 
+// maxNesting is the deepest nesting of objects and arrays a document may
+// have, the same bound encoding/json puts on the values it decodes. The
+// decoder recurses once or more per level, so without a bound a large enough
+// document exhausts the stack, which cannot be recovered from.
+const maxNesting = 10000
+
 // decoder is an instance for decoding a single message, not reusable.
 type decoder struct {
 	jd    *json.Decoder
 	codec *Codec
+
+	// depth counts the objects and arrays opened and not yet closed
+	depth int
 }
 
 func (d *decoder) Token() (json.Token, error) {
-	return d.jd.Token()
+	tok, err := d.jd.Token()
+	if err != nil {
+		return tok, err
+	}
+	if delim, ok := tok.(json.Delim); ok {
+		switch delim {
+		case '{', '[':
+			d.depth++
+			if d.depth > maxNesting {
+				return nil, fmt.Errorf("exceeded max nesting depth of %d", maxNesting)
+			}
+		case '}', ']':
+			d.depth--
+		}
+	}
+	return tok, nil
 }
 
 func (dec *decoder) expectDelimOrNull(delim rune) (isNull bool, err error) {
